@@ -12,6 +12,7 @@ pybrops/core/random/sampling.py  x  every answer of the random generator:
 from __future__ import annotations
 import itertools
 import math
+import os
 from fractions import Fraction
 import numpy
 
@@ -730,7 +731,10 @@ def shards(tier, seed):
     T = tier == "thorough"
     plan = {"sus": 120 if T else 48, "tiled": 8 if T else 4, "axis": 24 if T else 8, "outx": 140 if T else 60}
     out = []
+    only = os.environ.get("C17_ONLY_PARTS")       # development aid (mutation experiments): default = all four parts
     for part, (gen, _) in PARTS.items():
+        if only and part not in only.split(","):
+            continue
         cs = gen(tier, seed)
         for ch in _chunks(cs, plan[part]):
             out.append((part, ch))
@@ -755,6 +759,8 @@ def run_shard(spec, ctx):
 
 def finalize(ctx, tier, seed):
     c = ctx.counters
+    if os.environ.get("C17_ONLY_PARTS"):
+        return                                     # development runs on a subset of the parts: no vacuity verdict
     for part in PARTS:
         assert c.get(f"{part}:cases", 0) > 0, part
     for kind in ("class", "extreme", "boundary"):
